@@ -376,7 +376,10 @@ def entry_points(acc):
         }
         for mask in range(16):
             for excl_ext in (True, False):
-                for mp in (root, os.path.join(root, "sub"), other, os.path.dirname(root)):
+                # the last two: directories outside root_path whose spelling STARTS with root_path ('..' components)
+                dotted_other = os.path.join(root, os.pardir, os.path.relpath(other, os.path.dirname(root)))
+                dotted_parent = os.path.join(root, "sub", os.pardir, os.pardir)
+                for mp in (root, os.path.join(root, "sub"), other, os.path.dirname(root), dotted_other, dotted_parent):
                     kw = {"exclude_external_libraries": excl_ext}
                     for i, (k, v) in enumerate(opts.items()):
                         if mask >> i & 1:
@@ -410,6 +413,8 @@ def misspelt(spec, acc):
     for i in range(spec["n"]):
         if i == 0 or rnd.random() < 0.04:
             big_diagram_with_absent_component(rnd, acc)
+        if i % 8 == 0:
+            anything_batch_reapplied(rnd, acc)
         mods = random_tree(rnd, 6, 11)
         imps = random_imports(rnd, mods, k_max=8)
         limit = rnd.choice([None, None, 1, 2])
@@ -460,6 +465,19 @@ def misspelt(spec, acc):
 
         HUB.case = {"kind": "misspelt", "mods": mods, "imps": imps, "limit": limit, "cfg": cfg}
         run(mk_rule(cfg), evl)
+        if limit is None and fk != "regex" and rnd.random() < 0.5:
+            # the same rule OBJECT is first applied to an architecture in which every name exists (a newer version of the
+            # project, say) and then to this one: the absent name must be noticed on every application
+            absent = sorted({n for side in ("subs", "objs") for k, n in cfg[side] if k != "regex" and n not in present})
+            if absent and all(a.rsplit(".", 1)[0] in present or a.rsplit(".", 1)[0] in absent for a in absent):
+                evl_all = build(list(mods) + absent, imps, check=False)
+                robj = mk_rule(cfg)
+                HUB.case = {"kind": "misspelt", "mods": list(mods) + absent, "imps": imps, "limit": None, "cfg": cfg, "step": "architecture that has every name"}
+                run(robj, evl_all)
+                HUB.case = {"kind": "misspelt-reapplied", "mods": mods, "imps": imps, "absent": absent, "cfg": cfg}
+                run(robj, evl)
+                acc.evaluated(2)
+                acc.count("rule_objects_with_an_absent_name_first_applied_where_it_exists")
         acc.evaluated()
         acc.hist("misspelt_kind", f"{kind}:{pos}")
         acc.nontrivial({"m": mods, "i": imps, "l": limit, "c": cfg})
@@ -535,6 +553,36 @@ def diagram_with_absent_component(rnd, evl, present, acc):
     acc.evaluated()
     acc.hist("diagram_absent_component", how)
     os.unlink(path)
+
+
+def anything_batch_reapplied(rnd, acc):
+    """ONE 'anything' rule object over [P, P.child]: first applied to an architecture that has P.child, then to one that
+    lacks it (and the other way round).  The absent name must be noticed on every application."""
+    from ..drive import mk_rule
+
+    mods = random_tree(rnd, 6, 11)
+    imps = random_imports(rnd, mods, k_max=8)
+    parents = [m for m in mods if m != "r"]
+    p = rnd.choice(parents)
+    child = p + "." + rnd.choice(["nope", "zz_new", "v2"])
+    if child in mods:
+        return
+    fk = rnd.choice(["named", "named", "sub"])
+    members = [(fk, p), (fk, child)]
+    if rnd.random() < 0.5:
+        members.reverse()
+    cfg = {"verb": "should_not", "dir": rnd.choice(["import", "be"]), "exc": False, "subs": members, "objs": [], "anything": True}
+    with_child = build(list(mods) + [child], imps, check=False)
+    without = build(mods, imps, check=False)
+    robj = mk_rule(cfg, list_form=True)
+    order = [("architecture that has every name", with_child, list(mods) + [child]), ("name absent", without, mods)]
+    if rnd.random() < 0.3:
+        order.reverse()
+    for step, evl, ms in order + order[:1]:
+        HUB.case = {"kind": "anything-batch-reapplied", "mods": mods, "imps": imps, "cfg": cfg, "child": child, "order": [o[0] for o in order], "step": step}
+        run(robj, evl)
+        acc.evaluated()
+    acc.count("rule_objects_with_an_absent_name_first_applied_where_it_exists")
 
 
 def big_diagram_with_absent_component(rnd, acc):
@@ -633,6 +681,29 @@ def replay(case, acc):
         evl = build(case["mods"], [tuple(i) for i in case["imps"]], level_limit=case["limit"], check=False)
         HUB.case = case
         run(mk_rule(cfg), evl)
+    elif k == "anything-batch-reapplied":
+        from ..drive import mk_rule
+
+        cfg = case["cfg"]
+        cfg["subs"] = [tuple(s) for s in cfg["subs"]]
+        imps = [tuple(i) for i in case["imps"]]
+        robj = mk_rule(cfg, list_form=True)
+        evs = {"architecture that has every name": build(list(case["mods"]) + [case["child"]], imps, check=False), "name absent": build(case["mods"], imps, check=False)}
+        for step in case["order"] + case["order"][:1]:
+            HUB.case = dict(case, step=step)
+            run(robj, evs[step])
+    elif k == "misspelt-reapplied":
+        from ..drive import mk_rule
+
+        cfg = case["cfg"]
+        cfg["subs"] = [tuple(s) for s in cfg["subs"]]
+        cfg["objs"] = [tuple(o) for o in cfg["objs"]]
+        imps = [tuple(i) for i in case["imps"]]
+        robj = mk_rule(cfg)
+        HUB.case = dict(case, step="architecture that has every name")
+        run(robj, build(list(case["mods"]) + list(case["absent"]), imps, check=False))
+        HUB.case = case
+        run(robj, build(case["mods"], imps, check=False))
     elif k == "diagram_seq":
         diagram_sequences(acc)
     elif k == "diagram_reconfigured":
@@ -649,7 +720,7 @@ def floors(acc, tier):
         for c in need:
             if acc.hists.get(hist, {}).get(c, 0) == 0:
                 why.append(f"{hist}: class {c} never observed")
-    for c, n in (("c13_rule_evaluations", 5000), ("c13_layer_evaluations", 500), ("c13_diagram_evaluations", 50), ("c13_entry_point_invalid_calls", 50), ("c13_unknown_module_evaluations", 300), ("c13_unmatched_regex_evaluations", 50), ("c13_calls_that_must_raise", 100), ("several_patterns_one_unmatched", 50), ("c13_diagram_unknown_component_evaluations", 50), ("diagram_rules_reconfigured_after_application", 50), ("batches_with_one_misspelt_member", 50), ("anything_batches_with_one_misspelt_member", 10), ("rule_histories_with_an_empty_batch", 50), ("big_diagrams_with_an_absent_component", 5)):
+    for c, n in (("c13_rule_evaluations", 5000), ("c13_layer_evaluations", 500), ("c13_diagram_evaluations", 50), ("c13_entry_point_invalid_calls", 50), ("c13_unknown_module_evaluations", 300), ("c13_unmatched_regex_evaluations", 50), ("c13_calls_that_must_raise", 100), ("several_patterns_one_unmatched", 50), ("c13_diagram_unknown_component_evaluations", 50), ("diagram_rules_reconfigured_after_application", 50), ("batches_with_one_misspelt_member", 50), ("anything_batches_with_one_misspelt_member", 10), ("rule_histories_with_an_empty_batch", 50), ("big_diagrams_with_an_absent_component", 5), ("rule_objects_with_an_absent_name_first_applied_where_it_exists", 50)):
         if acc.counters[c] < n:
             why.append(f"{c}: only {acc.counters[c]}")
     acc.flags["exhaustive"] = all(acc.flags.get(f) for f in ("exhaustive_rule_sequences", "exhaustive_layer_sequences", "exhaustive_mutations", "exhaustive_entry_options"))
